@@ -238,7 +238,7 @@ func actionCodeReplaceTs(vnode *parser.RootVistor,
 	str = reg.ReplaceAllStringFunc(str, func(s string) string {
 		index := s[1:]
 		i, _ := strconv.Atoi(index)
-		return fmt.Sprintf("Dollar[%s].ValType.%s", index, pr.RighPart[i-1].Tag)
+		return fmt.Sprintf("Dollar[%d].ValType.%s", i, pr.RighPart[i-1].Tag)
 	})
 	return strComment + str + "\n"
 }
